@@ -372,18 +372,20 @@ class File(resource.Resource, filepath.FilePath[str]):
                 start, end = byteRange.split(b"-", 1)
             except ValueError:
                 raise ValueError(f"Invalid Byte-Range: {byteRange!r}")
+            # first-pos, last-pos and suffix-length are 1*DIGIT (RFC 9110
+            # section 14.1.1), optionally surrounded by whitespace; int()
+            # alone would also accept signs and underscores.
+            start, end = start.strip(), end.strip()
             if start:
-                try:
-                    start = int(start)
-                except ValueError:
+                if not start.isdigit():
                     raise ValueError(f"Invalid Byte-Range: {byteRange!r}")
+                start = int(start)
             else:
                 start = None
             if end:
-                try:
-                    end = int(end)
-                except ValueError:
+                if not end.isdigit():
                     raise ValueError(f"Invalid Byte-Range: {byteRange!r}")
+                end = int(end)
             else:
                 end = None
             if start is not None:
